@@ -439,7 +439,7 @@ def run_property(prop, tier, seed, replay=None):
             reported.append({'signature': sig2, 'replay': path})
             print('VIOLATION property=%s replay=%s' % (prop.id, path))
             print('  signature: %s' % sig2)
-            if len(reported) >= 5:
+            if len(reported) >= 3:
                 break
         rc = 1
     # 5. evidence
